@@ -196,6 +196,32 @@ def _fresh_receiver(f, name: str, stmt) -> Tuple[bool, str]:
 
 
 ctx_tree = None
+LINKED_SHARED = ("circuit", "reg_refs", "init_reg_refs", "free_params")
+
+
+def _shallow_shared(f, name, stmt, attr) -> str:
+    rd = rd_of(f.node)
+    cfg = rd.cfg
+    ids = cfg.find(stmt) or cfg.node_of_expr(stmt)
+    for d in rd.reaching(name, ids[0]):
+        v = d.value
+        if d.weak or not isinstance(v, ast.Call):
+            continue
+        cn = dotted(v.func) or ""
+        shallow = cn == "copy.copy" or (cn.endswith("._linked_copy") and attr in LINKED_SHARED)
+        if not shallow:
+            continue
+        # a dominating rebinding `name.attr = ...` makes the attribute private to the copy
+        rebound = False
+        for nd in cfg.nodes:
+            a = nd.ast
+            if nd.kind == "stmt" and isinstance(a, ast.Assign) and any(dotted(t) == f"{name}.{attr}" for t in a.targets) \
+                    and cfg.dominates(nd.id, ids[0]) and nd.id != ids[0]:
+                rebound = True
+        if not rebound:
+            return (f"`{name}` is a shallow copy ({cn}) that shares `{attr}` with the original; modifying it in place "
+                    "changes the user's object")
+    return ""
 
 
 def writers(ctx, rule="C09.effects"):
@@ -232,6 +258,12 @@ def writers(ctx, rule="C09.effects"):
                 want = reason[6:]
                 root = recv.split(".")[0]
                 ok, why = _fresh_receiver(f, root, st)
+                if ok and kind != "store":
+                    # in-place modification *through* a shallow copy hits the object shared with the original,
+                    # unless the attribute was rebound on the copy first
+                    sh = _shallow_shared(f, root, st, attr)
+                    if sh:
+                        ok, why = False, sh
                 ctx.ob(rule, f.site, ok, "" if ok else f"`{ast.unparse(st)[:60]}`: receiver is not fresh in this call "
                        f"({why}) - the caller's object is modified", role=role, line=st.lineno)
             else:
